@@ -3,10 +3,11 @@ CONSTANTS
   MaxItems = 2
   Choices <- ChoicesFull
   ChangeRule = "noexprs"
+  TextHashRule = "joined"
   MaxEdits = 3
   EmitEdges = FALSE
 INIT Init
 NEXT Next
 VIEW View
-INVARIANTS TypeOK NoRebuildMeansFaithful DevEqualsNormal RenderNeverFails
+INVARIANTS TypeOK TextFileCurrent NoRebuildMeansFaithful DevEqualsNormal RenderNeverFails
 CHECK_DEADLOCK FALSE
